@@ -97,6 +97,25 @@ Wrapped == <<
   \* a binding that exists only inside must not be visible to the sibling: undefined-variable
   [f |-> "letleak", head |-> <<LB>>, pre |-> <<LetT, VarT(<<36,105>>), AssignT, X, InT>>,
    core |-> <<VarT(<<36,105>>), LB, IntT(<<48>>), RB>>, post |-> <<>>, tail |-> <<Comma, VarT(<<36,105>>), RB>>] >>
+\* nesting families that ALTERNATE two constructs: each wrapper puts something before and / or after its operand;
+\* the pair (w1, w2) nests w1(w2(w1(w2( ... x ... )))) -- e.g. (paren, slice) is (((x[:])[:])[:]), a slice
+\* projection whose SUBJECT contains a slice projection, which no family of one construct produces.  Every
+\* wrapper uses its operand once, so the meaning stays linear in the depth; what is checked on the real code is
+\* the cost (growth when the depth doubles, 64 .. 8192) and that nothing crashes, not the value
+Wrappers == <<
+  [w |-> "paren",   pre |-> <<LP>>, post |-> <<RP>>],
+  [w |-> "slice",   pre |-> <<>>,   post |-> <<LB, Colon, RB>>],
+  [w |-> "index",   pre |-> <<>>,   post |-> <<LB, IntT(<<48>>), RB>>],
+  [w |-> "flatten", pre |-> <<>>,   post |-> <<Flat>>],
+  [w |-> "star",    pre |-> <<>>,   post |-> <<LB, Star, RB>>],
+  [w |-> "filter",  pre |-> <<>>,   post |-> <<Filt, CurT, RB>>],
+  [w |-> "mslist",  pre |-> <<LB>>, post |-> <<RB>>],
+  [w |-> "call",    pre |-> <<Id(<<116,111,95,97,114,114,97,121>>), LP>>, post |-> <<RP>>],
+  [w |-> "pipe",    pre |-> <<>>,   post |-> <<PipeT, CurT>>],
+  [w |-> "dotms",   pre |-> <<>>,   post |-> <<Dot, LB, CurT, RB>>] >>
+PairOf(i, j) == [f |-> Wrappers[i].w \o "-" \o Wrappers[j].w, pre |-> Wrappers[i].pre \o Wrappers[j].pre, core |-> <<X>>,
+                 post |-> Wrappers[j].post \o Wrappers[i].post]
+PairFams == { PairOf(p[1], p[2]) : p \in { q \in (1..Len(Wrappers)) \X (1..Len(Wrappers)) : q[1] # q[2] } }
 WText(fm, n) == fm.head \o Rep(fm.pre, n) \o fm.core \o Rep(fm.post, n) \o fm.tail
 FamText(fm, n) == Rep(fm.pre, n) \o fm.core \o Rep(fm.post, n)
 \* families whose meaning does not depend on the depth (for n >= 1)
@@ -126,6 +145,20 @@ DocExprs == << <<CurT, EqT, CurT>>, <<CurT, NeT, CurT>>, Fn(<<108,101,110,103,11
                Fn(<<108,101,110,103,116,104>>, Fn(<<116,111,95,97,114,114,97,121>>, <<CurT>>)), <<NotT, CurT>>, Fn(<<116,121,112,101>>, <<CurT, Flat>>),
                Fn(<<108,101,110,103,116,104>>, <<CurT, LB, Star, RB>>), <<CurT, LB, IntT(<<48>>), RB, LB, IntT(<<48>>), RB, EqT, CurT, LB, IntT(<<48>>), RB>> >>
 
+\* deep documents in PAIRS: {a, b, c: arrays nested d levels around the number 1; o, p: objects nested d levels
+\* around it}.  In the specification the five hold the same number; the harness spells / carries it differently
+\* (a: 1, b: 1.0, c: float64, o: 1, p: 1e0), so that equality far below the surface still has to compare numbers
+\* by value (C20) -- the depth and the spelling are two dimensions that were only exercised apart
+RECURSIVE NestO(_)
+NestO(d) == IF d = 0 THEN JInt(1) ELSE Obj(<<Mem(<<107>>, NestO(d - 1))>>)
+PairDoc(d) == Obj(<<Mem(<<97>>, Nest(d)), Mem(<<98>>, Nest(d)), Mem(<<99>>, Nest(d)), Mem(<<111>>, NestO(d)), Mem(<<112>>, NestO(d))>>)
+Fa == Id(<<97>>)  Fb == Id(<<98>>)  Fc == Id(<<99>>)  Fo == Id(<<111>>)  Fp == Id(<<112>>)
+PairExprs == << <<Fa, EqT, Fb>>, <<Fa, NeT, Fb>>, <<Fb, EqT, Fa>>, <<Fa, EqT, Fc>>, <<Fc, NeT, Fb>>, <<Fo, EqT, Fp>>, <<Fo, NeT, Fp>>, <<Fa, EqT, Fo>>,
+               Fn(<<99,111,110,116,97,105,110,115>>, <<LB, Fa, RB, Comma, Fb>>), Fn(<<99,111,110,116,97,105,110,115>>, <<LB, Fo, Comma, Fa, RB, Comma, Fp>>),
+               Fn(<<108,101,110,103,116,104>>, <<LB, Fa, Comma, Fc, Comma, Fo, RB, Filt, CurT, EqT, RootT, Dot, Fb, RB>>),
+               <<LB, Fa, RB, EqT, LB, Fb, RB>>, <<LBr, Id(<<107>>), Colon, Fo, RBr, EqT, LBr, Id(<<107>>), Colon, Fp, RBr>>,
+               <<Fa, EqT, Fb, AndT, Fb, EqT, Fc, AndT, Fa, EqT, Fc>> >>
+
 Check == idx > 0 =>
   LET m   == Mags[bucket]
       big == TemplateSeq(m)
@@ -152,9 +185,19 @@ Check == idx > 0 =>
                              counts |-> [j \in 1..Len(counts) |-> [n |-> counts[j], adm |-> {JInt(counts[j] + CountFams[i].plus)}]]] : i \in 1..Len(CountFams) }]
       docscale == [p |-> Prop, kind |-> "docscale",
                    multi |-> { [expr |-> Render(DocExprs[i]), adm |-> Admissible(DocExprs[i], Nest(4))] : i \in 1..Len(DocExprs) }]
+      docpair == [p |-> Prop, kind |-> "docscale",
+                  multi |-> { [expr |-> Render(PairExprs[i]), variant |-> "pair", adm |-> Admissible(PairExprs[i], PairDoc(4))] : i \in 1..Len(PairExprs) }]
+      pscale == [p |-> Prop, kind |-> "scale", doc |-> Doc,
+                 multi |-> { [family |-> fm.f, pre |-> Render(fm.pre), core |-> Render(fm.core), post |-> Render(fm.post),
+                              adm |-> Admissible(FamText(fm, 2), Doc), stable |-> FALSE, flat |-> FALSE] : fm \in PairFams }]
   IN /\ Emit => PrintT("CASE " \o ToJson(case))
+     /\ (Emit /\ bucket = 2 /\ Prop \in {"C09", "C03"}) => PrintT("CASE " \o ToJson(pscale))
+     /\ Named(bucket # 2 \/ \A fm \in PairFams : \A n \in 1..3 : \A o \in Admissible(FamText(fm, n), Doc) : ~IsErr(o), "PairFamiliesEvaluate")
      /\ (Emit /\ bucket = 1) => PrintT("CASE " \o ToJson(scale))
      /\ (Emit /\ bucket = 1) => PrintT("CASE " \o ToJson(docscale))
+     /\ (Emit /\ bucket = 3) => PrintT("CASE " \o ToJson(docpair))
+     /\ Named(bucket # 3 \/ \A i \in 1..Len(PairExprs) : \A d \in 1..5 :
+                 Admissible(PairExprs[i], PairDoc(d)) = Admissible(PairExprs[i], PairDoc(4)), "PairDepthLemma")
      /\ (Emit /\ bucket = 1) => PrintT("CASE " \o ToJson(wscale))
      /\ (Emit /\ bucket = 1) => PrintT("CASE " \o ToJson(count))
      /\ Named(bucket # 1 \/ \A i \in 1..Len(Wrapped) : \A n \in 1..5 :
